@@ -20,6 +20,17 @@ COQ = os.path.join(ROOT, 'coq')
 OCAML = os.path.join(COQ, 'ocaml')
 HARNESS = os.path.join(ROOT, 'harness')
 TARGET = os.path.join(CACHE, 'target')
+if os.path.realpath(REPO) != '/repo':
+    # mutation self-test against a scratch copy of the repository: own manifest, own target dir
+    _tag = hashlib.sha1(os.path.realpath(REPO).encode()).hexdigest()[:10]
+    HARNESS = os.path.join(CACHE, 'harness_alt', _tag)
+    TARGET = os.path.join(CACHE, 'target_alt', _tag)
+    os.makedirs(HARNESS, exist_ok=True)
+    _toml = open(os.path.join(ROOT, 'harness', 'Cargo.toml')).read().replace('"/repo/', '"%s/' % os.path.realpath(REPO))
+    if not os.path.exists(os.path.join(HARNESS, 'Cargo.toml')) or open(os.path.join(HARNESS, 'Cargo.toml')).read() != _toml:
+        open(os.path.join(HARNESS, 'Cargo.toml'), 'w').write(_toml)
+    if not os.path.islink(os.path.join(HARNESS, 'src')):
+        os.symlink(os.path.join(ROOT, 'harness', 'src'), os.path.join(HARNESS, 'src'))
 OUT = os.path.join(ROOT, 'out')
 NPROC = min(16, os.cpu_count() or 4)
 
@@ -227,6 +238,8 @@ def build_model(name):
 def build_harness(bins, release=False):
     with Lock('cargo'):
         lock_src = os.path.join(REPO, 'Cargo.lock')
+        if not os.path.exists(lock_src):
+            lock_src = '/repo/Cargo.lock'
         lock_dst = os.path.join(HARNESS, 'Cargo.lock')
         if not os.path.exists(lock_dst) or open(lock_src).read() != open(lock_dst).read():
             shutil.copyfile(lock_src, lock_dst)
@@ -456,8 +469,9 @@ def check_property(pid, tier, seed):
     ev['wall_s'] = round(time.time() - t0, 2)
     if getattr(prop, 'PARTIAL', None):
         cov['partial'] = prop.PARTIAL
-    os.makedirs(os.path.join(ROOT, 'evidence'), exist_ok=True)
-    json.dump(ev, open(os.path.join(ROOT, 'evidence', pid + '.json'), 'w'), indent=1, sort_keys=True)
+    evdir = os.path.join(ROOT, 'evidence') if os.path.realpath(REPO) == '/repo' else os.path.join(OUT, 'evidence_alt')
+    os.makedirs(evdir, exist_ok=True)
+    json.dump(ev, open(os.path.join(evdir, pid + '.json'), 'w'), indent=1, sort_keys=True)
 
     for fid, n in sorted(res.known.items()):
         print('KNOWN-FINDING: property=%s %s (%s; %d cases this run)' % (pid, fid, kf[fid]['what'], n))
